@@ -50,11 +50,16 @@ SKELETONS = {
     "shared-var": (":root {{ --c: {T0}; }}\na {{ color: var(--c); }}\nb {{ color: var(--c); background-color: {B1}; }}\n",
                    [dict(sel="a", text="T0", bg=None, var="--c"), dict(sel="b", text="T0", bg="B1", var="--c")]),
     "root-color": (":root {{ color: {T0}; --x: 1px; }}\n", [dict(sel=":root", text="T0", bg=None)]),
+    "selector-list": ("a, b > c {{ color: {T0}; }}\nd {{ color: {T1}; background-color: {B1}; }}\n",
+                      [dict(sel="a, b > c", text="T0", bg=None), dict(sel="d", text="T1", bg="B1")]),
+    "var-in-media": (":root {{ --c: {T0}; }}\n@media print {{ p {{ color: var(--c); background-color: {B0}; }} }}\n",
+                     [dict(sel="p", text="T0", bg="B0", var="--c")]),
+    "var-bg-only": (":root {{ --b: {B0}; }}\np {{ color: {T0}; background-color: var(--b); }}\n", [dict(sel="p", text="T0", bg="B0")]),
     "html-color": ("html {{ color: {T0}; background-color: {B0}; }}\n", [dict(sel="html", text="T0", bg="B0")]),
 }
 
 QUICK = ["plain", "with-bg", "two-rules", "important", "repeated", "comment-other-decls", "media", "supports", "nested2", "nested3", "invalid-colour", "root-var", "html-var-bg",
-         "chained-var", "var-fallback", "var-undefined-fallback", "shared-var", "root-color", "html-color"]
+         "chained-var", "var-fallback", "var-undefined-fallback", "shared-var", "root-color", "html-color", "selector-list", "var-in-media", "var-bg-only"]
 
 META = dict(
     explanation=(
